@@ -248,24 +248,17 @@ class InterfaceLDM4:
             "LDM Data Consumer subscribed with application id %s",
             str(subscribe_data_consumer),
         )
-        result = self.validate_subscribe_data_consumer(subscribe_data_consumer)
+        # The registration is checked and the subscription stored in one critical section of the
+        # service state: a deregistration ends exactly the subscriptions stored before it, and a
+        # subscription that is refused is never visible to an attendance pass.
+        with self.ldm_service.state_lock:
+            result = self.validate_subscribe_data_consumer(subscribe_data_consumer)
 
-        if result is not None:
-            return result
+            if result is not None:
+                return result
 
-        subscription_id = self.store_subscription_info(
-            subscribe_data_consumer, callback
-        )
-
-        # The data consumer may have deregistered between the validation and the storing of the
-        # subscription; a deregistration ends the subscriptions it finds, so this one is withdrawn.
-        if not self.is_valid_its_aid(subscribe_data_consumer.application_id):
-            self.ldm_service.delete_subscription(subscription_id)
-            return SubscribeDataObjectsResp(
-                subscribe_data_consumer.application_id,
-                0,
-                SubscribeDataobjectsResult.INVALID_ITSA_ID,
-                "Invalid ITS-AID",
+            subscription_id = self.store_subscription_info(
+                subscribe_data_consumer, callback
             )
 
         return SubscribeDataObjectsResp(
